@@ -176,6 +176,9 @@ class Auer(PALAlgorithm):
                     to_be_discarded.append(pt)
                     break
 
+        # Keep the rows of beta_t aligned with the iteration order of the remaining designs.
+        self.beta_t = self.beta_t[[pt not in to_be_discarded for pt in self.S]]
+
         for pt in to_be_discarded:
             self.S.remove(pt)
 
